@@ -38,7 +38,8 @@ func histfoldRun(items [][2]string) string {
 			a, b := strings.Fields(fresh), strings.Fields(obs)
 			sort.Strings(a)
 			sort.Strings(b)
-			same = strings.Join(a, " ") == strings.Join(b, " ")
+			same = strings.Join(a, " ") == strings.Join(b, " ") ||
+				(strings.HasSuffix(fresh, " R err") && strings.HasSuffix(obs, " R err")) // the events before an error depend on the order
 		}
 		if !same {
 			obs += " ## C17 fresh=" + strings.ReplaceAll(fresh, " ", "_")
